@@ -47,6 +47,11 @@ var rulesErrTable = [][2]string{
 	{"cannot accept type", "MARKER"},
 	{"is not a valid type to be referenced", "MARKER"},
 	{"Forward local references", "MARKER"},
+	{"comment", "COMMENT"},
+	{"not a valid media type", "MEDIATYPE"},
+	{"Invalid month", "TIME"}, {"Invalid day", "TIME"}, {"Year cannot be 0", "TIME"}, {"Invalid hour", "TIME"}, {"Invalid minute", "TIME"},
+	{"Invalid second", "TIME"}, {"Invalid nanosecond", "TIME"}, {"Invalid longitude", "TIME"}, {"Invalid latitude", "TIME"}, {"Invalid UTC offset", "TIME"},
+	{"Time zone is specified", "TIME"}, {"Area/location time zones", "TIME"}, {"not a valid time zone", "TIME"},
 }
 
 type ruleCfg struct {
@@ -93,7 +98,13 @@ func allGenCfg() GenCfg {
 
 var mutationPool = []string{"n", "t", "pi:5", "ni:7", "fl:3ff8000000000000", "nan:0", "l", "m", "e", "nd", "end", "end", "pad", "cm:0:41",
 	"s:str:6b", "a:str:1:6b", "a:u8:2:0102", "ab:str", "ab:u16", "ac:1:0", "ac:2:1", "ad:41", "ad:c3", "mk:6d31", "ref:6d31", "rt:7274", "r:7274",
-	"bd", "ed", "v:0", "v:1", "uid:000102030405060708090a0b0c0d0e0f", "s:rid:61", "cb:1:00", "ct:1:41", "md:612f62:00", "mb:612f62", "cbg:cbin:1", "bi:nil", "s:str:ff", "a:u16:2:0102"}
+	"bd", "ed", "v:0", "v:1", "uid:000102030405060708090a0b0c0d0e0f", "s:rid:61", "cb:1:00", "ct:1:41", "md:612f62:00", "mb:612f62", "cbg:cbin:1", "bi:nil", "s:str:ff", "a:u16:2:0102",
+	// contents the text format cannot spell: media types, times, area/location names
+	"md:612062:00", "md:312f78:00", "mb:612f", "mb:61", "md:612f622f63:00", "md:74657874c3a92f78:00", "md:612d2b2e2f7e7b7d:0102",
+	"tm:0:2020:13:1:0:0:0:0:u", "tm:0:0:1:1:0:0:0:0:u", "tm:0:2020:2:30:0:0:0:0:u", "tm:0:2020:2:29:0:0:0:0:u", "tm:1:0:0:0:24:0:0:0:z", "tm:1:0:0:0:23:59:60:999999999:z",
+	"tm:1:0:0:0:1:60:0:0:z", "tm:1:0:0:0:1:1:61:0:z", "tm:1:0:0:0:1:1:1:1000000000:z", "tm:2:2020:2:29:1:1:1:1:g.9001.0", "tm:2:2020:2:29:1:1:1:1:g.-9000.18000",
+	"tm:2:2020:2:29:1:1:1:1:g.0.-18001", "tm:1:0:0:0:1:1:1:1:o.1440", "tm:1:0:0:0:1:1:1:1:o.-1439", "tm:1:0:0:0:1:1:1:1:a.6c6f77", "tm:1:0:0:0:1:1:1:1:a.452f42",
+	"tm:1:0:0:0:1:1:1:1:a.4520", "tm:1:0:0:0:1:1:1:1:a.45c3a9", "tm:1:0:0:0:1:1:1:1:a."}
 
 func mutate(rng *Rng, evs []Event) ([]Event, string) {
 	out := make([]Event, len(evs))
@@ -102,6 +113,14 @@ func mutate(rng *Rng, evs []Event) ([]Event, string) {
 		return out, "none"
 	}
 	i := 2 + rng.Intn(len(out)-2)
+	if rng.P(1, 9) {
+		// a comment whose text may or may not be spellable (line breaks, delimiters, nesting, bad UTF-8)
+		pool := []string{"ok", "a\nb", "a\rb", "x*/y", "/*x", "/*x*/", "a/*b/*c*/d*/e", "ends/", "/**/", "/*/", "*/", "\xff", "é/", "", "*", "//", "a/* */ /"}
+		c := Event{K: "cm", B: rng.P(1, 2), D: []byte(pool[rng.Intn(len(pool))])}
+		ins := append([]Event{}, out[:i]...)
+		ins = append(ins, c)
+		return append(ins, out[i:]...), "comment"
+	}
 	switch rng.Intn(8) {
 	case 0:
 		return append(out[:i], out[i+1:]...), "delete"
